@@ -1073,7 +1073,7 @@ def main(tier):
     ck.samples =[{"t1": json_tree(cases[k]["a"]), "t2": json_tree(cases[k]["b"]), "cost": cfg_name(ALLCFG[cases[k]["ci"]]), "impl_d": impl[k].get("d"),
                    "spec_units": unlimb(model[k][0]) if model[k] else None} for k in (0, len(cases) // 3, len(cases) // 2, len(cases) - 8) if k < len(cases)]
     ck.cov.update({
-        "evaluations": len(cases) + nbig,
+        "evaluations": len(cases) + nbig + hstat["calls"],
         "distinct_nontrivial": len(dists),
         "rule": "tree pairs: exhaustive <=4 nodes/2 labels (all for default; sampled for python/weighted in quick), sampled <=5 nodes, "
                 "random trees up to %d nodes (identical, relabelled, k-edit mutations with known cost bound, independent, subtree), "
@@ -1081,7 +1081,15 @@ def main(tier):
                 "weighted family NewWeightedCostModel(ins,del,ren,base) with %d weight triples (fixed corners incl. zero/tiny/huge weights + random dyadic, "
                 "mostly ins<>del) over the default and Python base models: all ordered pairs <=3 nodes/2 labels for the first members, "
                 "size classes larger-first/smaller-first/equal in both argument orders, random trees <=24 nodes with k-edit bound, both directions decided; "
-                "distinct = distinct (cost model, distance) values seen; %d cases with distance > 0" % (nmax, len(wcfgs), nontrivial),
+                "HISTORIES on one analyzer over TreeNode objects built once (op ted_seq): per cost model (all %d) trees T of 5-12 nodes/2-3 labels, X (a k-edit "
+                "mutation of T or independent) and a separate copy of T; for EVERY non-root position p of T a sequence of 3-8 calls f(T,X); g(subtree at p, partner); "
+                "f(T,X) again; ... with the partner rotating over X, a subtree of X, the copy of the subtree, T itself, another subtree of T, the subtree itself, "
+                "the copy of T, continued with T against its copy, the other argument order, the same object twice, further subtree calls, sometimes "
+                "PrepareTreeForAPTED first as at fragment extraction; plus unstructured histories over all (tree, path) arguments; EVERY distance/similarity of a "
+                "history is decided against the spec of its own two (sub)trees (no dependence on earlier calls) and the identity clauses; a failing history is "
+                "cut to its shortest failing prefix and calls in front of the failing one are dropped while it still fails; "
+                "distinct = distinct (cost model, distance) values seen; %d cases with distance > 0" % (nmax, len(wcfgs), len(ALLCFG), nontrivial),
+        "histories": hstat,
         "weighted_family_members": [cfg_name(c) for c in wcfgs],
         "input_distribution": dict(kinds, above_limit=nbig, brute_force_checked=n_brute,
                                    coq_evaluated=sum(1 for m in model if m is not None)),
@@ -1095,6 +1103,10 @@ def main(tier):
                    "hand-written model Ted/ZS.v of apted.go/apted_tree.go (exact path only; computeDistanceOptimized not modelled)",
                    "hand-written model Ted/Cost.v of the cost models, compared on a %d-label alphabet with the implementation's tables" % len(LABELS),
                    "minimum edit cost = minimum over Tai mappings (each node edited at most once); python/weighted costs are not a metric",
-                   "pyscn-verif ted hook builds TreeNode values with NewTreeNode/AddChild and uses the analyzer NewCloneDetector builds"]
+                   "pyscn-verif ted hook builds TreeNode values with NewTreeNode/AddChild and uses the analyzer NewCloneDetector builds",
+                   "pyscn-verif ted_seq hook: builds the trees once, resolves (tree, path) to the TreeNode reached through Children and calls ComputeDistance / "
+                   "ComputeSimilarity / PrepareTreeForAPTED in the given order on one analyzer (a panic of one call is reported for that call only)"]
     ck.finish(assumptions=["labels are ASCII strings; both trees have at most 500 nodes (exact path) except for the similarity-range and identical-tree clauses",
-                           "trees are separate objects or the same object; a tree that is a sub-object of the other is not exercised"])
+                           "the two arguments of one call are separate objects, the same object, disjoint subtrees of one tree or a tree and a node on its "
+                           "left-most path; a node elsewhere inside the other argument is exercised and is the open finding C07-F1",
+                           "histories: the trees are not modified between the calls of a history (only the index fields the analyzer itself writes change)"])
